@@ -39,7 +39,7 @@ type c19World struct {
 	P    [2]edwards25519.Point
 	S    edwards25519.Scalar
 	E    field.Element
-	praw [2][20]uint64
+	praw [2]alpha.RawPoint
 	sraw [4]uint64
 	eraw Limbs
 	H    []*c19Handle
@@ -241,13 +241,14 @@ func c19Ops(tier string) []string {
 		"call NewIdentityPoint", "call NewGeneratorPoint", "call NewScalar",
 		"call ExtendedCoordinates 0", "call ExtendedCoordinates 1", "call Bytes 0", "call Bytes 1", "call BytesMontgomery 0",
 		"call ScalarBytes", "call ElementBytes",
+		"call ZeroScalarBytes", "call ZeroElementBytes", "call IdentityBytes",
 	}
 	for slot := 0; slot < 2; slot++ {
 		for mode := 0; mode < 3; mode++ {
 			ops = append(ops, fmt.Sprintf("scribble %d %d", slot, mode))
 		}
 	}
-	ops = append(ops, "heavy ScalarBaseMult", "heavy VarTimeDouble", "heavy MultiScalarMult", "heavy decode-add", "heavy VarTimeMultiScalarMult5", "heavy MultiScalarMult5")
+	ops = append(ops, "heavy ScalarBaseMult", "heavy VarTimeDouble", "heavy MultiScalarMult", "heavy decode-add", "heavy VarTimeMultiScalarMult5", "heavy MultiScalarMult5", "heavy rejected-setter-calls")
 	return ops
 }
 
@@ -275,7 +276,7 @@ func (w *c19World) step(op string) *core.Fail {
 			i := atoi(f[2])
 			h.kind = "elems"
 			h.e[0], h.e[1], h.e[2], h.e[3] = w.P[i].ExtendedCoordinates()
-			src := alpha.PointRaw(&w.P[i])
+			src := alpha.PointLimbs(&w.P[i])
 			for k := 0; k < 4; k++ {
 				var l Limbs
 				copy(l[:], src[5*k:5*k+5])
@@ -299,6 +300,16 @@ func (w *c19World) step(op string) *core.Fail {
 		case "ElementBytes":
 			h.kind, h.b = "bytes", w.E.Bytes()
 			e := ref.LE32(alpha.FieldValues(true)[13])
+			exp = e[:]
+		case "ZeroScalarBytes": // special values are where a shared "fast path" buffer would sit
+			h.kind, h.b = "bytes", new(edwards25519.Scalar).Subtract(&w.S, &w.S).Bytes()
+			exp = make([]byte, 32)
+		case "ZeroElementBytes":
+			h.kind, h.b = "bytes", new(field.Element).Subtract(&w.E, &w.E).Bytes()
+			exp = make([]byte, 32)
+		case "IdentityBytes":
+			h.kind, h.b = "bytes", new(edwards25519.Point).Subtract(&w.P[1], &w.P[1]).Bytes()
+			e := ref.Encode(ref.Identity())
 			exp = e[:]
 		}
 		h.want = h.observe()
@@ -390,6 +401,22 @@ func (w *c19World) step(op string) *core.Fail {
 		case "MultiScalarMult":
 			r := alpha.MakePoint(ref.Base(), 3)
 			r.MultiScalarMult([]*edwards25519.Scalar{g, &w.S}, []*edwards25519.Point{&w.P[0], &w.P[1]})
+		case "rejected-setter-calls":
+			// every fallible setter on inputs it must reject (too short, too
+			// long, out of range): a rejected call must leave nothing behind
+			long := bytes.Repeat([]byte{0xd7}, 97)
+			for _, n := range []int{0, 31, 33, 63, 65, 97} {
+				new(edwards25519.Scalar).SetBytesWithClamping(long[:n])
+				new(edwards25519.Scalar).SetUniformBytes(long[:n])
+				new(edwards25519.Scalar).SetCanonicalBytes(long[:n])
+				new(edwards25519.Point).SetBytes(long[:n])
+				new(field.Element).SetBytes(long[:n])
+				new(field.Element).SetWideBytes(long[:n])
+			}
+			new(edwards25519.Scalar).SetCanonicalBytes(bytes.Repeat([]byte{0xff}, 32))
+			new(edwards25519.Point).SetBytes(bytes.Repeat([]byte{0x02}, 32))
+			z := new(field.Element)
+			new(edwards25519.Point).SetExtendedCoordinates(z, z, z, z)
 		case "VarTimeMultiScalarMult5", "MultiScalarMult5":
 			// a call with more terms than any call of the probe battery
 			sc := []*edwards25519.Scalar{g, &w.S, g, &w.S, g}
